@@ -279,7 +279,8 @@ type TxSpec struct {
 	Mint      []AQ // policies must be policyOfKey(k) for MintKeys, unless RawMintPolicies
 	MintKeys  []int
 	Coll      []In
-	RefIns    []In // Babbage+ reference inputs (body key 18)
+	RefIns    []In    // Babbage+ reference inputs (body key 18)
+	SubTxs    []SubTx // Dijkstra sub-transactions (body key 23)
 	CollRet   *Out
 	TotalColl *uint64
 	NetID     *uint8
@@ -293,6 +294,25 @@ type TxSpec struct {
 	ThreeElems  bool // Dijkstra: [body, wits, aux] envelope
 	ExtraSigner []int
 	// body keys to emit as explicit zero even when semantically "nothing"
+}
+
+// SubTx is a minimal Dijkstra sub-transaction [body, witness_set, nil] whose
+// body has one (distinct) input, no outputs and optional validity bounds.
+type SubTx struct {
+	TTL   *uint64 // sub body key 3
+	Start *uint64 // sub body key 8
+}
+
+func (tx *TxSpec) subTxNode(i int, st SubTx) *xcbor.Node {
+	id := hash256([]byte(fmt.Sprintf("verif/rules1/subtx/%d", i)))
+	kv := []*xcbor.Node{xcbor.U(0), tx.setNode([]*xcbor.Node{xcbor.A(xcbor.B(id[:]), xcbor.U(uint64(i)))}), xcbor.U(1), xcbor.A()}
+	if st.TTL != nil {
+		kv = append(kv, xcbor.U(3), xcbor.U(*st.TTL))
+	}
+	if st.Start != nil {
+		kv = append(kv, xcbor.U(8), xcbor.U(*st.Start))
+	}
+	return xcbor.A(xcbor.M(kv...), xcbor.M(), xcbor.Null())
 }
 
 func u64p(v uint64) *uint64 { return &v }
@@ -423,6 +443,13 @@ func (tx *TxSpec) BodyNode() (*xcbor.Node, []byte) {
 		if tx.Donation != nil {
 			add(22, xcbor.U(*tx.Donation))
 		}
+	}
+	if tx.Era >= Dijkstra && len(tx.SubTxs) > 0 {
+		var ss []*xcbor.Node
+		for i, st := range tx.SubTxs {
+			ss = append(ss, tx.subTxNode(i, st))
+		}
+		add(23, tx.setNode(ss))
 	}
 	return xcbor.M(kv...), aux
 }
